@@ -130,6 +130,9 @@ func (l *library) drawModel(r *rng.R) drawnModel {
 		if r.Chance(1, 5) {
 			corpus.Reorder(r, e)
 		}
+		if r.Chance(1, 6) {
+			corpus.InPlaceNames(r, e)
+		}
 		return fromEntry(e)
 	case x < 17 || len(l.samples) == 0:
 		e := corpus.DrawDAG(r)
@@ -144,6 +147,9 @@ func (l *library) drawModel(r *rng.R) drawnModel {
 		}
 		if r.Chance(1, 4) {
 			corpus.Reorder(r, e)
+		}
+		if r.Chance(1, 5) {
+			corpus.InPlaceNames(r, e)
 		}
 		return fromEntry(e)
 	default:
